@@ -56,9 +56,9 @@ func (i *c19Impl) AdminV(ctx context.Context, x int) (int, error) {
 }
 
 type c19Proxy struct {
-	ReadE  func(ctx context.Context) error             `perm:"read"`
-	WriteE func(ctx context.Context) error             `perm:"write"`
-	AdminE func(ctx context.Context) error             `perm:"admin"`
+	ReadE  func(ctx context.Context) error               `perm:"read"`
+	WriteE func(ctx context.Context) error               `perm:"write"`
+	AdminE func(ctx context.Context) error               `perm:"admin"`
 	ReadV  func(ctx context.Context, x int) (int, error) `perm:"read"`
 	WriteV func(ctx context.Context, x int) (int, error) `perm:"write"`
 	AdminV func(ctx context.Context, x int) (int, error) `perm:"admin"`
@@ -359,7 +359,7 @@ type c19E2ECase struct {
 
 func runC19E2E(c c19E2ECase) *Violation {
 	e := newC19E2E(c.Defaults)
-	defer e.srv.Close()
+	defer closeTestServer(e.srv)
 	var hdr http.Header
 	if c.Token != nil {
 		hdr = http.Header{"Authorization": []string{"Bearer " + *c.Token}}
